@@ -722,6 +722,17 @@ func (db *ContractDB) parseFile(pkgPath, file, src string) error {
 			// visible only to units of this package
 			curT = nil
 			key := strings.TrimSpace(strings.TrimPrefix(rest, "func"))
+			if strings.HasPrefix(key, "(") && !strings.Contains(key[:strings.Index(key+")", ")")], ".") {
+				// a receiver without a package path is a type of this package ("(T).M" → "(pkg.T).M");
+				// left as written it would match no callee and the contract would silently never apply
+				inner := key[1:strings.Index(key, ")")]
+				meth := key[strings.Index(key, ")")+1:]
+				if strings.HasPrefix(inner, "*") {
+					key = "(*" + pkgPath + "." + inner[1:] + ")" + meth
+				} else {
+					key = "(" + pkgPath + "." + inner + ")" + meth
+				}
+			}
 			curF = &FuncContract{Key: key, File: file, Loops: map[string]*LoopSpec{}, CallAsserts: map[string][]Clause{}, Trusted: true, Extern: pkgPath}
 			if db.Externs[pkgPath] == nil {
 				db.Externs[pkgPath] = map[string]*FuncContract{}
